@@ -345,3 +345,11 @@ def fresh(shape):
     a, k = construction_data(shape)
     with contracts.quiet():
         return type(shape)(*a, **k)
+
+
+def scaled_copy(shape, u):
+    """A new object of the same class built from ``shape``'s construction data in other units (all lengths times u)."""
+    a, k = construction_data(shape)
+    a = tuple((np.asarray(x, float) * u if isinstance(x, np.ndarray) else (x * u if isinstance(x, float) else x)) for x in a)
+    with contracts.quiet():
+        return type(shape)(*a, **k)
